@@ -11,6 +11,7 @@ from . import cattree as CT
 
 NULLS = ('.', '*')
 RE_PITCH = re.compile(r'^([a-g]+|[A-G]+)$')
+RE_PITCH_ACC = re.compile(r'^([a-g]+|[A-G]+)(#{1,3}|-{1,3})$')
 RE_ALT = re.compile(r'^(#{1,3}|-{1,3}|n)([xXiIjZ]|yy?|YY?)?$')
 RE_DUR_NUM = re.compile(r'^\d+(%\d+)?$')
 NOTE_KINDS = ('note', 'rest', 'chord')
@@ -82,7 +83,8 @@ def suppress(rows):
 def classify_part(p):
     if p == 'r':
         return 'REST'
-    if RE_PITCH.match(p):
+    if RE_PITCH.match(p) or RE_PITCH_ACC.match(p):
+        # (a document produced by to_transposed keeps letters and accidental in ONE pitch sub-token: 'aa-', 'F#')
         return 'PITCH'
     if RE_ALT.match(p):
         return 'ALTERATION'
